@@ -331,6 +331,8 @@ func splitEncs(s string) []string {
 func c01(p *core.Program, r *core.Report) {
 	r.Rule("R1", "encoding-dispatch exhaustiveness: every function of package roaring that dispatches on the encodings of two containers is abstractly executed for all 3x3 encoding pairs; on every path that is not an operand-count shortcut it must reach a kernel whose name suffix (ArrayRun, BitmapBitmap, ...) matches the encodings of the arguments in the order passed (after any xToY conversion); it may not fall through to a default. Functions dispatching on one container must cover all three encodings (if/else chains end in else or test all three; switches on the type byte cover all three constants or have a default)")
 	r.Rule("R4", "word stores in run loops: in a loop of package roaring that works on run bounds and both stores (=) and accumulates (|=) into words of the same bitmap, a plain store is reached, for every ordering of the word's first value W, its last value E = W+63 and the run's bounds, only when W >= run.start and E <= run.last (the word lies wholly inside the run); any other word may already hold bits of the previous run")
+	r.Rule("R5", "counts deferred by an in-place union are not trusted: same obligation as C02-R5 -- every caller of Container.unionInPlace recounts before the result's N() is read or the function returns, and while the recount is deferred to the end (Containers.Repair) no condition takes the N() of a container loaded from the collection for an upper bound (N == 0, N < k): a stale count is a lower bound only")
+	c02CountRepaired(p, r)
 	r.Rule("R3", "interval-case coverage: Container.runCountRange is abstractly executed for every weak ordering of {iv.start, iv.last, start, end} (iv.start <= iv.last, start <= end); whenever the run [iv.start, iv.last] overlaps [start, end) the iteration must add to the count or return")
 	r.NotDecided = "that any kernel computes the right set or count for every input; iterator Seek/Next, Max/Min, Flip, OffsetRange arithmetic; array/bitmap/run conversion thresholds"
 	rp := p.Pkg("roaring")
